@@ -1444,6 +1444,20 @@ class ArrayInterp(Interp):
             for gg in e.generators[1:]:
                 self.ev(gg.iter, Frame(fr.module, fr.func, fr.cls, _copy_env(fr.env), fr.depth))
             return Lst("opaque")
+        if isinstance(e, (ast.ListComp, ast.GeneratorExp)) and isinstance(e.elt, ast.Tuple) and not g.ifs and isinstance(it, Lst) and it.what in ("cmds", "arrs") and it.L \
+                and not any(isinstance(x_, ast.Starred) for x_ in e.elt.elts):
+            # [(a(x), b(x)) for x in inputs] is zip([a(x) for x in inputs], [b(x) for x in inputs]): one list per component, same order
+            parts = []
+            for comp_ in e.elt.elts:
+                sub_ = ast.copy_location(ast.ListComp(elt=comp_, generators=e.generators), e)
+                parts.append(self.ev_comp(sub_, fr))
+            return Lst("zip", srcs=tuple(getattr(x_, "srcs", ()) for x_ in parts), zipped=tuple(parts))
+        if isinstance(it, Lst) and it.what == "zip" and it.zipped and not g.ifs and isinstance(e.elt, ast.Name) and isinstance(g.target, ast.Tuple) \
+                and len(g.target.elts) == len(it.zipped) and all(isinstance(x_, ast.Name) for x_ in g.target.elts):
+            # [b for a, b in zip(A, B)] is B
+            names_ = [x_.id for x_ in g.target.elts]
+            if names_.count(e.elt.id) == 1 and isinstance(it.zipped[names_.index(e.elt.id)], Lst):
+                return it.zipped[names_.index(e.elt.id)]
         elem = self.elem_of(it, g.iter, fr)
         f2 = Frame(fr.module, fr.func, fr.cls, _copy_env(fr.env), fr.depth)
         f2.returns = fr.returns
